@@ -550,9 +550,9 @@ def bash_positions(text_pos, chunks):
         for i, c in enumerate(chunks):
             pos += len(c.encode())
             if i == 0 and c == PROBE_BASH_POS + "\n":
-                parts.append("__POS=%d; " % pos + PROBE_CHUNK_VAR + "\n")
+                parts.append("__POS=%d; " % pos + PROBE_CHUNK_VAR + "; __k() { return $1; }\n")
             else:
-                parts.append("__POS=%d; " % pos + c)
+                parts.append("__s=$?; __POS=%d; __k $__s; " % pos + c)       # $? as the chunk would see it
         script = "".join(parts)
         with open(os.path.join(d, "prog.sh"), "w") as f:
             f.write(script)
@@ -660,7 +660,7 @@ def check_delivery(ctx, progs):
         b0 = (bm["file"][0], mask_ml(bm["file"][1]))
         a0 = (ref[0], mask_ml(ref[1]))
         if b0 != a0:
-            if "heredoc_bs" in p["feats"] and (b0[0], b0[1].replace("\\\n", "")) == a0:
+            if "heredoc_bs" in p["feats"] and (b0[0], re.sub(r"(?m)^(h\d+ a)\\\nb", r"\1b", b0[1])) == a0:
                 ctx.known_or_violation(KNOWN_HEREDOC, "backslash-newline inside an unquoted here-document is kept", case)
             else:
                 lim.violation("every delivery mode agrees in brush but differs from bash", case)
@@ -854,7 +854,8 @@ def _opt_cmds(o):
 
 
 def _step(o, ti):
-    return "%s\neval %s\necho \"rc=$?\"\n" % (_opt_cmds(o), "'" + EXEC_TEXTS[ti].replace("'", "'\\''") + "'")
+    # in a subshell: brush treats a syntax error in eval'd text as fatal to the shell that runs it
+    return "%s\n( eval %s )\necho \"rc=$?\"\n" % (_opt_cmds(o), "'" + EXEC_TEXTS[ti].replace("'", "'\\''") + "'")
 
 
 def check_cache_exec(ctx, nhist):
